@@ -152,6 +152,15 @@ CHECKS += [
     },
 ]
 
+CHECKS += [
+    {
+        "property_id": "C12", "engine": "symx+crosshair", "category": "model_checking",
+        "technique": "symbolic execution of the real converter and gate library on concretely built qiskit circuits with rotation angles abstracted to trigonometric atoms + z3 (division-free proportionality of accepted amplitudes to a bit-tuple reference unitary); CrossHair for the qubit-adjacency arithmetic",
+        "text": "For every program in the bound (all pairs of operations with a multi-qubit gate on 2 qubits, pairs of multi-qubit gates on 3 qubits incl. non-adjacent and all ccx target positions, both modes) and every rotation angle: the converter either raises or returns a lossless circuit whose accepted dual-rail amplitudes are pairwise proportional to the qiskit unitary's entries with a non-zero scalar, vanish outside the qubit subspace, and whose rules are one photon per qubit pair; convert_two_qubits_to_adjacent returns adjacent, order-preserving positions reached by its swaps for all qubit pairs below 8.",
+        "design_ref": "DESIGN.md section 4 C12", "note": SYMX_NOTE + " The bit-tuple reference is validated against qiskit.quantum_info.Operator in every concrete validation run. Programs above the photon bound rest on C02 + C13 + the stated composition lemma.",
+    },
+]
+
 _TODO = "check not built yet in this round; see DESIGN.md section 4 for the plan"
 NOT_APPLICABLE = [
     {"property_id": f"C{i:02d}", "reason": _TODO} for i in range(2, 20) if f"C{i:02d}" not in {c["property_id"] for c in CHECKS}
